@@ -66,8 +66,16 @@ SetTweakBad(len) ==
     /\ Budget /\ ~ValidLen(len)
     /\ calls' = Tick /\ UNCHANGED <<key, tw, sched, last>>
 
+(* a refused re-key (bad length: 0 = too short, 1 = too long, 2 = null key) leaves the object  *)
+(* exactly as it was, in particular the remembered tweak that the next SetTweak xors out       *)
+SetTweakedKeyBad(why) ==
+    /\ Budget
+    /\ tw' = IF Variant = "badkeyclears" THEN ZeroT ELSE tw
+    /\ calls' = Tick /\ UNCHANGED <<key, sched, last>>
+
 Next ==
     \/ \E k \in Keys : SetTweakedKey(k)
+    \/ \E why \in 0..2 : SetTweakedKeyBad(why)
     \/ \E t \in TVecs, len \in 1..N : SetTweak(t, len)
     \/ \E len \in 1..N : SetTweakNull(len)
     \/ \E len \in {0, N + 1} : SetTweakBad(len)
